@@ -41,7 +41,7 @@ def b(name, **kw):
 
 
 U1 = [(V, 'u1_search', {}), (V, 'u1_overlap', {}), (V, 'u1_iter', {})]
-U2 = [(V, 'u2_buffer', {}), (V, 'u2_stream', {})]
+U2 = [(V, 'u2_buffer', {}), (V, 'u2_stream', {}), ('kani', 'buffer_free', {})]
 U2R = U2 + [(V, 'u2_replace', {})]
 
 PROPS = {
@@ -83,7 +83,7 @@ PROPS = {
     'C07': dict(
         components=[(V, 'l1_semantics', {})] + U2 + [(V, 'u1_iter', {}), b('stream', aspects='find'), b('ac', families='small', lens='1')],
         level_text='Proof (Verus, fully within the family): for every reader obeying the std::io::Read contract — i.e. for all read sizes, all positions where a read ends, all buffer capacities > min — the real StreamChunkIter::next/StreamFindIter::next yield exactly st_rest(stream), the run of the abstract automaton over the concatenated stream with absolute offsets (Buffer::new/fill/roll proved with content postconditions). The in-memory side (FindIter over find_spec) is proved in u1_iter. Bounded companion: real readers with explicit schedules and capacities 1..8 bytes above the minimum (hook H2).',
-        level_note=LEMMA_NOTE + COMMON_NOTE + ' Read contract = std documentation (assumption about the caller\'s reader). Buffer::free_buffer (one line) is trusted with a stated contract. Streams shorter than 2^64 bytes.',
+        level_note=LEMMA_NOTE + COMMON_NOTE + ' Read contract = std documentation (assumption about the caller\'s reader). Buffer::free_buffer (one line, not expressible in vstd) is an external_body stub in the Verus units whose contract is checked on the real function by Kani (group buffer_free: exactly buf[end..] for every capacity up to 300000). Streams shorter than 2^64 bytes.',
     ),
     'C08': dict(
         components=U2R + [b('stream', aspects='replace')],
@@ -92,7 +92,7 @@ PROPS = {
     ),
     'C09': dict(
         components=[(V, 'u1_search', {}), (V, 'u1_overlap', {}), (V, 'u1_iter', {}),
-                    sem('std,lf,ll', 'find,iter,anch,ovanch,spans'), sem('std,lf,ll', 'find,iter,anch,ovanch', families='wide,deep', cfgs='low')],
+                    sem('std,lf,ll', 'find,iter,anch,ovanch,spans'), sem('std,lf,ll', 'find,iter,anch,ovanch', families='wide,deep', cfgs='low'), sem('std,lf,ll', 'find,iter,anch', families='wide', cfgs='top')],
         level_text='Proof (Verus): with an anchored input the search loop keeps only matches starting at input.start (scan with fstart = Some(start)), the overlapping stepper reports exactly the kept matches (state_matches with keep), FindIter is generic in anchoring. Bounded stand-in: anchored results equal the definition restricted to occurrences starting at the span start, for NFAs and DFAs with Anchored/Both start kinds.',
         level_note=COMMON_NOTE,
     ),
@@ -102,7 +102,7 @@ PROPS = {
         level_note=COMMON_NOTE,
     ),
     'C11': dict(
-        components=[('kani', 'prefilter_leaf', {})] + [sem('std,lf,ll', 'find,iter,ov,anch', families='ci', ci='1'), b('pc'), b('bisim', families='ci')],
+        components=[('kani', 'prefilter_leaf', {})] + [sem('std,lf,ll', 'find,iter,ov,anch', families='ci', ci='1'), sem('std,lf,ll', 'find,iter,ov', families='deep,wide', ci='1', cfgs='low'), b('pc'), b('bisim', families='ci')],
         level_text='Proof (Kani, complete over u8): opposite_ascii_case flips exactly A-Z/a-z, is an involution and fixes every other byte (boundary bytes and >= 0x80 included); RareByteOffsets::set keeps the per-byte maximum. Bounded stand-in: definition with ASCII folding vs the real builders (both-case trie edges, byte classes, exact match-list multiplicity, ids as supplied) over letters of both cases, boundary bytes and non-ASCII bytes; prefilter contract with ci on; bisimulation of representations.',
         level_note=COMMON_NOTE + ' The trie construction with both-case edges is a builder (bounded stand-in only).',
     ),
@@ -127,7 +127,7 @@ PROPS = {
         level_note=COMMON_NOTE + ' Raw-pointer code (Teddy, is_prefix_raw) is covered by bounded runs only until the Kani unit lands.',
     ),
     'C16': dict(
-        components=[(V, 'u1_search', {}), (V, 'u1_recipe', {}), (V, 'u3_dfa', {}), b('ac', families='small,abc,ci'), b('repr')],
+        components=[(V, 'u1_search', {}), (V, 'u1_recipe', {}), (V, 'u3_dfa', {}), b('ac', families='small,abc,ci,many,wide'), b('repr')],
         level_text='The Automaton contract AC is the hypothesis the proved search loops consume (Verus). The search routine printed in the trait documentation is cut out of the doc comment and proved to return the same find_spec as the built-in search (u1_recipe). For dfa::DFA the accessors themselves are proved (u3_dfa) under the representation invariant dfa_wf: next_state never indexes out of bounds and returns a state id, the dead state is absorbing, is_dead/is_match/is_special/is_start are the id comparisons of the layout, dead and match imply special, match_len/match_pattern index a non-empty list of valid pattern ids, start_state fails exactly for the mode whose start id is the dead state; dfa_wf is executed on the whole table of every real DFA of the bounded space (repr, hook H1). Bounded stand-in, exhaustive per automaton: every clause of AC evaluated on all reachable states x 256 bytes x both anchoring arguments of every automaton of the bounded pattern space.',
         level_note=COMMON_NOTE,
     ),
